@@ -75,13 +75,13 @@ def confirm(sd):
 
 def run_check(prop, sd, extra_props=()):
     diff = os.path.join(sd, "patch.diff")
-    rc, out = sh("git -C /repo status --porcelain")
-    assert out.strip() == "", "/repo is not clean: " + out
     results = {}
     import fcntl
     lk = open(os.path.join(VERIF, ".repo.lock"), "w")
     fcntl.flock(lk, fcntl.LOCK_EX)      # no other check or harness build sees the seeded tree
     ENV["VERIF_LOCK_HELD"] = "1"
+    rc, out = sh("git -C /repo status --porcelain")
+    assert out.strip() == "", "/repo is not clean: " + out
     try:
         rc, out = sh("git -C /repo apply %s" % diff)
         assert rc == 0, out
